@@ -64,6 +64,10 @@ type Case struct {
 	// CloneWith: a global middleware outside Recovery hands a CloneWith copy of the context down the chain (what a
 	// response-wrapping middleware does); Recovery then works on that copy
 	CloneWith bool `json:"clone_with,omitempty"`
+	// LogLevel: which records the slog handler given to the Recovery middleware accepts: "" everything, "error" only ERROR and
+	// above, "off" nothing (like slog.DiscardHandler). What the client gets does not depend on it; with "off" no record exists
+	// to be judged.
+	LogLevel string `json:"log_level,omitempty"`
 }
 
 var ctxStates = []string{"", "", "", "canceled", "deadline", "canceled-in-mw"}
@@ -130,9 +134,18 @@ func raise(name string) {
 type capture struct {
 	buf     bytes.Buffer
 	records int
+	level   string
 }
 
-func (c *capture) Enabled(context.Context, slog.Level) bool { return true }
+func (c *capture) Enabled(_ context.Context, l slog.Level) bool {
+	switch c.level {
+	case "error":
+		return l >= slog.LevelError
+	case "off":
+		return false
+	}
+	return true
+}
 func (c *capture) Handle(_ context.Context, r slog.Record) error {
 	c.records++
 	fmt.Fprintf(&c.buf, "LEVEL=%s MSG=%s", r.Level, r.Message)
@@ -161,7 +174,7 @@ func (w *recW) Flush()                      { w.flushes++ }
 var sensitive = []string{"Authorization", "Proxy-Authorization", "Cookie", "Set-Cookie", "X-CSRF-Token", "X-Vault-Token"}
 
 func checkCase(c *Case) (err error) {
-	logs := &capture{}
+	logs := &capture{level: c.LogLevel}
 	ran := map[string]int{}
 	var f *fox.Router
 	progress := func(ctx fox.Context) {
@@ -371,7 +384,10 @@ func checkCase(c *Case) (err error) {
 		}
 	}
 	// the log record
-	if !abort {
+	if c.LogLevel == "off" && logs.records != 0 {
+		return fmt.Errorf("%s%d record(s) were handed to a slog handler that accepts none", desc, logs.records)
+	}
+	if !abort && c.LogLevel != "off" {
 		text := logs.buf.String()
 		if logs.records < 1 {
 			return fmt.Errorf("%sno diagnostic record was logged for the recovered panic", desc)
@@ -468,6 +484,7 @@ func genCase(t *rapid.T) *Case {
 	}
 	c.Ctx = gen.Pick(t, ctxStates, "ctx")
 	c.CloneWith = gen.Chance(t, 1, 3, "clonewith")
+	c.LogLevel = gen.Pick(t, []string{"", "", "", "error", "off"}, "loglevel")
 	n := gen.IntR(t, 0, 6, "nheaders")
 	for i := 0; i < n; i++ {
 		tok := fmt.Sprintf("tok%dZ%dq", i, gen.IntR(t, 100000, 999999, "tok"))
@@ -490,6 +507,7 @@ func TestPanics(t *testing.T) {
 		stats.Class("where:" + c.Where)
 		stats.Class("kind:" + c.Kind)
 		stats.Class("progress:" + c.Progress)
+		stats.Class("log-handler-accepts:" + map[string]string{"": "everything", "error": "error-and-above", "off": "nothing"}[c.LogLevel])
 		nonCanon := false
 		for _, h := range c.Headers {
 			if h.Secret && h.Name != http.CanonicalHeaderKey(h.Name) {
